@@ -112,6 +112,22 @@ def run(ctx):
                 got = "ok (" + " ".join(rec.calls) + ")"
             except Exception as e:  # noqa: BLE001
                 got = "err"
+            # the same run with (some of) the arguments given by keyword: same renderer calls
+            names = [p[0] for p in fns[-1]["params"]]
+            if names and len(names) == len(a):
+                cut = 0 if len(lines) % 2 == 0 else len(a) - 1
+                rec_kw = recorder()
+                try:
+                    PathVisualizer(mod.main.dialects, arch_spec=spec, renderer=rec_kw).run(
+                        mod.main, args=tuple(a[:cut]), kwargs=dict(zip(names[cut:], a[cut:])))
+                    got_kw = "ok (" + " ".join(rec_kw.calls) + ")"
+                except Exception as e:  # noqa: BLE001
+                    got_kw = "err"
+                ctx.count("runs_with_keyword_arguments")
+                if got_kw != got:
+                    ctx.fail({"source": src[len(L.HDR):], "args": list(a), "by_keyword": names[cut:]},
+                             "the visualizer renders a different sequence when arguments are given by keyword: "
+                             f"keyword={got_kw[:300]} positional={got[:300]}")
             other = EV.run_with_events(mod.main, spec, a)
             want = "err" if other.error is not None else "ok (" + " ".join(render_of_events(spec, other.events)) + ")"
             want2 = None
